@@ -43,15 +43,15 @@ from specs import resolver_spec as rs
 ID = 'C12'
 LEVEL = 'exploration'
 P_TARGETS = []
-BUDGET = {'quick': 32.0, 'thorough': 330.0}
+BUDGET = {'quick': 32.0, 'thorough': 300.0}
 CHUNK = 12
 HASHSEEDS = ('0', '1', '4242')
 BOUNDS = {
     'quick': {'strings': 'every fourth two-level case (graphs <= 4 nodes x orders x designs x all-atom/coarse x legacy, virtual nodes, multiplied units), '
                          'all typed-in strings, every second layered string', 'permutations': 'all for <= 3 definitions per block, reversal + 7 seeded above',
               'constructors': 4, 'shared_library_sequence': 3, 'hashseed_batches': 3, 'batch_size': 25, 'hashseeds': list(HASHSEEDS)},
-    'thorough': {'strings': 'every second two-level case (graphs <= 5 nodes, 2 repeats per cell, 4000 random trees) and every second layered case', 'permutations': 'all for <= 4 definitions per block, reversal + 7 seeded above',
-                 'constructors': 4, 'shared_library_sequence': 3, 'hashseed_batches': 40, 'batch_size': 25, 'hashseeds': list(HASHSEEDS)},
+    'thorough': {'strings': 'every fourth two-level case (graphs <= 5 nodes, 2 repeats per cell, 4000 random trees), all typed-in strings, every second layered case', 'permutations': 'all for <= 4 definitions per block, reversal + 7 seeded above',
+                 'constructors': 4, 'shared_library_sequence': 3, 'hashseed_batches': 30, 'batch_size': 25, 'hashseeds': list(HASHSEEDS)},
 }
 EXHAUSTIVE = {'quick': False, 'thorough': False}
 RULE = ('single: one string per case, all clauses (a)-(f); non-trivial when the fine graph has >= 2 coarse nodes owning atoms and the case '
@@ -68,27 +68,31 @@ def init_worker():
 
 
 def cases(tier, seed):
-    pool = []
-    k = 0
+    """Typed-in strings first, then single cases with a hash-seed batch after every 150 (quick) / 200 (thorough) of
+    them, so that every kind of check is reached early even when the budget cuts the enumeration."""
     pf = 3 if tier == 'quick' else 4
-    for c in gr.two_level_cases(tier, seed, reps=1 if tier == 'quick' else 2):
-        k += 1
+    singles, pool = [], []
+    for k, c in enumerate(gr.two_level_cases(tier, seed, reps=1 if tier == 'quick' else 2)):
         pool.append(c)
-        if k % (4 if tier == 'quick' else 2) == 0 or c['design'] == 'hand':
-            yield dict(c, kind='single', perm_full=pf)
-    lay = list(gr.layered_cases(tier, seed))
-    for i, c in enumerate(lay):
+        if c['design'] == 'hand' or k % 4 == 0:
+            singles.append(dict(c, kind='single', perm_full=pf))
+    for i, c in enumerate(gr.layered_cases(tier, seed)):
+        pool.append(c)
         if i % 2 == 0 or 'hand' in c['tags']:
-            yield dict(c, kind='single', perm_full=pf)
-    pool += lay
+            singles.append(dict(c, kind='single', perm_full=pf))
+    singles.sort(key=lambda c: 0 if c['design'] == 'hand' else 1)      # stable: typed-in strings first
     rng = random.Random(99)
     rng.shuffle(pool)
-    nb = 3 if tier == 'quick' else 40
-    for b in range(nb):
-        batch = pool[b * 25:(b + 1) * 25]
-        if batch:
-            yield {'kind': 'hashseed', 'id': 'hashseed/%d' % b,
-                   'batch': [{'s': gr.full_string(c), 'aa': c['all_atom'], 'leg': c['legacy']} for c in batch]}
+    nb = 3 if tier == 'quick' else 30
+    batches = [{'kind': 'hashseed', 'id': 'hashseed/%d' % b,
+                'batch': [{'s': gr.full_string(c), 'aa': c['all_atom'], 'leg': c['legacy']} for c in pool[b * 25:(b + 1) * 25]]}
+               for b in range(nb) if pool[b * 25:(b + 1) * 25]]
+    every = 150 if tier == 'quick' else 200
+    for i, c in enumerate(singles):
+        yield c
+        if (i + 1) % every == 0 and batches:
+            yield batches.pop(0)
+    yield from batches
 
 
 # ------------------------------------------------------------------------------------------- helpers
